@@ -217,6 +217,83 @@ def only_called_from(ctx, fi: FuncInfo, owners: set, _seen=None) -> bool:
 
 
 # --------------------------------------------------------------------------
+def key_lambda(fi: FuncInfo, key: ast.AST | None, cls: ClassInfo | None = None, repo=None, _depth=0) -> ast.Lambda | None:
+    """Normalises a ``key=`` argument to a one-parameter lambda: a lambda, a
+    local / module-level / method function with a single return, a module- or
+    function-level name bound to one of those, ``attrgetter("a"[, "b"])``
+    (-> x.a or (x.a, x.b)) and ``itemgetter(i)``."""
+    if key is None or _depth > 4:
+        return None
+    if isinstance(key, ast.Lambda):
+        return key if len(key.args.args) == 1 else None
+    if isinstance(key, ast.Call):
+        fn = ast.unparse(key.func).split(".")[-1]
+        if fn == "attrgetter" and key.args and all(isinstance(a, ast.Constant) and isinstance(a.value, str) for a in key.args):
+            x = ast.Name(id="x", ctx=ast.Load())
+            parts = []
+            for a in key.args:
+                e: ast.AST = x
+                for piece in a.value.split("."):
+                    e = ast.Attribute(value=e, attr=piece, ctx=ast.Load())
+                parts.append(e)
+            body = parts[0] if len(parts) == 1 else ast.Tuple(elts=parts, ctx=ast.Load())
+            return ast.Lambda(args=ast.arguments(posonlyargs=[], args=[ast.arg(arg="x")], kwonlyargs=[], kw_defaults=[], defaults=[]), body=body)
+        if fn == "itemgetter" and len(key.args) == 1:
+            x = ast.Name(id="x", ctx=ast.Load())
+            return ast.Lambda(
+                args=ast.arguments(posonlyargs=[], args=[ast.arg(arg="x")], kwonlyargs=[], kw_defaults=[], defaults=[]),
+                body=ast.Subscript(value=x, slice=key.args[0], ctx=ast.Load()),
+            )
+        return None
+
+    def from_def(n):
+        args = [a for a in n.args.args if a.arg not in ("self", "cls")]
+        rets = [r for r in ast.walk(n) if isinstance(r, ast.Return) and r.value is not None]
+        if len(args) == 1 and len(rets) == 1:
+            return ast.Lambda(args=ast.arguments(posonlyargs=[], args=[args[0]], kwonlyargs=[], kw_defaults=[], defaults=[]), body=rets[0].value)
+        return None
+
+    if isinstance(key, ast.Name):
+        for n in ast.walk(fi.node):
+            if isinstance(n, ast.FunctionDef) and n.name == key.id and n is not fi.node:
+                return from_def(n)
+        for d in _local_defs(fi).get(key.id, []):
+            if d is not None:
+                r = key_lambda(fi, d, cls, repo, _depth + 1)
+                if r is not None:
+                    return r
+        g = fi.module.functions.get(key.id)
+        if g is not None and not isinstance(g.node, ast.Lambda):
+            return from_def(g.node)
+        v = getattr(fi.module, "assigns", {}).get(key.id)
+        if v is not None:
+            return key_lambda(fi, v, cls, repo, _depth + 1)
+        return None
+    if isinstance(key, ast.Attribute) and isinstance(key.value, ast.Name) and key.value.id in ("self", "cls") and repo is not None and (cls or fi.cls):
+        m = repo.method(cls or fi.cls, key.attr)
+        if m is not None:
+            return from_def(m.node)
+    return None
+
+
+# --------------------------------------------------------------------------
+def source_pos(fn_node: ast.AST):
+    """pos(node) = position of ``node`` in a depth-first walk of the function
+    in source order.  Line numbers must not be used for ordering: in a
+    flattened function the inlined statements keep the line numbers of the
+    helper they came from."""
+    pos: dict[int, int] = {}
+
+    def rec(n):
+        pos[id(n)] = len(pos)
+        for c in ast.iter_child_nodes(n):
+            rec(c)
+
+    rec(fn_node)
+    return lambda n: pos.get(id(n), -1)
+
+
+# --------------------------------------------------------------------------
 # reordering operators
 _CHRONO_KEYS = ("start_time", "end_time")
 
